@@ -333,6 +333,15 @@ def classify(ur):
             kind = 'assertion'
         # for a precondition failure name the callee clause
         clause_text = ' '.join(s['hl'] or s['text'] for s in clause_sp)[:400]
+        # a closure without a contract in the enclosing function (introduced by an edit; the rule-based desugarings did not cover it):
+        # Verus knows nothing about what a call of it returns, so a failed obligation there is "needs a contract", not a verdict
+        bare_closure = False
+        if enc:
+            body_ = '\n'.join(gen_lines[enc[0] - 1:enc[1]])
+            for mc_ in re.finditer(r'(?:=|\(|,)\s*(?:move\s+)?\|[^|\n]*\|', body_):
+                head_ = body_[mc_.end():mc_.end() + 200]
+                if 'ensures' not in head_.split('{')[0]:
+                    bare_closure = True
         calls_auto = None
         if getattr(ur, 'auto', None) and enc:
             body = '\n'.join(gen_lines[enc[0] - 1:enc[1]])
@@ -344,7 +353,7 @@ def classify(ur):
                    repo_line=origin_line, site_text=' '.join((sp_site['hl'] or sp_site['text']).split())[:300],
                    clause=clause_text, rendered=e['rendered'], macro=sp_site.get('macro'),
                    fn_props=sorted(entry.props) if entry else [], auto_fn=bool(entry is not None and getattr(entry, 'auto', False)),
-                   unspec_loops=(getattr(entry, 'unspecified_loops', 0) if entry is not None else 0),
+                   unspec_loops=(getattr(entry, 'unspecified_loops', 0) if entry is not None else 0), bare_closure=bare_closure,
                    in_sidecar_only=(entry is None))
         ur.errors.append(rec)
     if not canary_failed:
@@ -485,6 +494,9 @@ def report(prop, spec, tier, runs, findings, kf, t0, extra, status_extra):
             elif rec.get('unspec_loops') and rec['kind'] not in ('decreases', 'termination'):
                 undecided.append('%s::%s: %s failed, but the function now has %d loop(s) that no loop contract covers (introduced by an edit): needs an invariant, not a verdict' % (
                     U.name, rec['function'], rec['kind'], rec['unspec_loops']))
+            elif rec.get('bare_closure') and rec['kind'] not in PANIC_KINDS:
+                undecided.append('%s::%s: %s failed, but the function now contains a closure without a contract (introduced by an edit; outside the rule-based desugarings): needs a contract, not a verdict' % (
+                    U.name, rec['function'], rec['kind']))
             elif rec.get('calls_auto'):
                 undecided.append('%s::%s: %s failed, but the function now calls `%s`, a function of /repo that has no contract in the unit (new helper): cannot attribute' % (
                     U.name, rec['function'], rec['kind'], rec['calls_auto']))
